@@ -13,7 +13,7 @@ if ! (cd "$S/repo" && go build ./... 2>"$S/build.err"); then echo "NOBUILD $D"; 
 if [ -n "$TESTS" ]; then timeout 240 "$V/scripts/baseline_off.sh" "$S/repo" | tail -3; [ ${PIPESTATUS[0]} -eq 124 ] && echo "baseline: TIMEOUT (tests hang)"; fi
 rc=0
 for id in "$@"; do
-  out=$("$V/bin/dverif" check "$id" --repo "$S/repo" --out "$S/ev" -q ${TIER:+--tier $TIER} 2>&1)
+  out=$("${DVERIF:-$V/bin/dverif}" check "$id" --repo "$S/repo" --out "$S/ev" -q ${TIER:+--tier $TIER} 2>&1)
   if echo "$out" | grep -q '^VIOLATION'; then
     echo "FIRED  $id $(basename $D): $(echo "$out" | grep '^VIOLATION' | sed -e 's/replay=[^ ]* //' -e "s#$S/repo/##g" | head -${SHOW:-2} | cut -c1-300)"
   else
